@@ -9,15 +9,15 @@
   Full statement (goal): `∀ ops, (ops.foldl step init).inv` for the whole mutating API, and
   `isRemoved` monotone along every history.
 
-  Status: proved for every call except `replace` (proved unless the replaced node sits between
-  two text nodes in strict mode) and `clone_node` of an element (proved under the guard
-  `cloneTopOK`); `isRemoved` monotone for every call without exception.  All preservation
+  Status: proved for every call of the forest model (`C04_step_all`, `C04_reach_all`);
+  `isRemoved` monotone for every call.  All preservation
   theorems hold for arbitrary numbers as handle arguments — no liveness hypothesis is needed,
   because a call on a handle that is not live is refused by the argument checks or is the
   identity; so "non-live arguments" are in scope, not excluded.  (What the Rust does with a
   stale `NodeId` is below this model: handles here are creation-order numbers.)
 -/
-import XotModel.Lemmas.FinvClone
+import XotModel.Lemmas.FinvReach2
+import XotModel.Lemmas.FinvStable
 
 namespace XotModel.Props
 open XotModel
@@ -232,8 +232,8 @@ theorem C04_fresh_handle (f : Forest) (v : Value) (hi : f.Inv) :
 
 /-! ### Histories -/
 
-/-- One step: every call in `Op.core` (everything except `replace` and `clone_node`) preserves the
-    invariant, whatever its arguments and outcome. -/
+/-- One step: every call in `Op.core` (which is every call) preserves the invariant, whatever
+    its arguments and outcome. -/
 theorem C04_step (f : Forest) (o : Op) (h : f.Inv) (hc : o.core = true) : (f.step o).Inv :=
   Forest.step_inv h o hc
 
@@ -250,6 +250,18 @@ theorem C04_reach (ops : List Op) (hc : ∀ o ∈ ops, o.core = true) : (Forest.
 theorem C04_reach_bool (ops : List Op) (hc : ∀ o ∈ ops, o.core = true) : (Forest.init.run ops).inv = true :=
   (Forest.inv_iff _).mpr (C04_reach ops hc)
 
+/-- The same without the (now vacuous) side condition. -/
+theorem C04_step_all (f : Forest) (o : Op) (h : f.Inv) : (f.step o).Inv :=
+  Forest.step_inv h o (by cases o <;> rfl)
+
+/-- Every forest reachable from the empty store by any sequence of calls of the mutating API,
+    with arbitrary arguments and whatever the calls answer, satisfies the invariant. -/
+theorem C04_reach_all (ops : List Op) : (Forest.init.run ops).Inv :=
+  C04_reach ops (fun o _ => by cases o <;> rfl)
+
+theorem C04_reach_all_bool (ops : List Op) : (Forest.init.run ops).inv = true :=
+  (Forest.inv_iff _).mpr (C04_reach_all ops)
+
 /-- Non-vacuity: a history that creates, moves, merges text, removes, and calls on a removed
     handle; evaluated. -/
 example : let ops : List Op := [.newElement 1, .newText ['x'], .newElement 2, .newText ['y'],
@@ -262,12 +274,15 @@ example : let ops : List Op := [.newElement 1, .newText ['x'], .newElement 2, .n
 
 These four take a node out *without* consolidating its former neighbours (`remove_subtree`,
 raw `detach`, indextree `remove`) and repair the text adjacency in a later step, so their
-intermediate states do not satisfy the invariant in strict mode.  `element_wrap` and
-`element_unwrap` are proved in full.  `C04_replaceStatement` and `C04_cloneNodeStatement` are NOT
-proved; proved for `replace` is the part where no such intermediate defect arises
-(`Forest.textGap = false`: in particular whenever consolidation has ever been off), for
-`clone_node` its replay loop and the non-element cases, and the handle part for all cases
-(`C04_step_le` above). -/
+intermediate states do not satisfy the invariant in strict mode, and the step lemmas of the moves
+cannot simply be chained.  All four statements are proved in full:
+`element_wrap` / `element_unwrap` by evaluating their steps on the explicit forest;
+`replace` in the gap case (`Forest.textGap = true`: the replaced node sits between two text nodes)
+by showing that `insert_after` on the state after `remove_subtree(replaced)` is, step by step, the
+same step on the valid forest followed by `remove_subtree(replaced)` — a text replacing node is
+merged into the left text and the final consolidation then is `remove(replaced)` on a valid
+forest; any other replacing node lands exactly in the hole;
+`clone_node` with the C06 lemmas for its guard. -/
 
 def C04_replaceStatement : Prop := ∀ (f : Forest) (a b : Nat), f.Inv → (f.replace a b).1.Inv
 def C04_elementWrapStatement : Prop := ∀ (f : Forest) (n name : Nat), f.Inv → (f.elementWrap n name).1.Inv
@@ -277,6 +292,17 @@ def C04_cloneNodeStatement : Prop := ∀ (f : Forest) (n : Nat), f.Inv → (f.cl
 /-- `replace` when the replaced node does not sit between two text nodes in strict mode. -/
 theorem C04_replace_partial (f : Forest) (a b : Nat) (h : f.Inv) (hg : f.textGap a = false) :
     (f.replace a b).1.Inv := Forest.replace_inv_of_noGap h a b hg
+
+/-- `replace` in the gap case: the final `remove_consolidate_text_nodes(previous, …)` repairs the
+    gap (or the replacing node fills it). -/
+theorem C04_replace_gap (f : Forest) (a b : Nat) (h : f.Inv) (hg : f.textGap a = true) :
+    (f.replace a b).1.Inv := Forest.replace_inv_of_gap h a b hg
+
+/-- `replace`: full statement. -/
+theorem C04_replace (f : Forest) (a b : Nat) (h : f.Inv) : (f.replace a b).1.Inv :=
+  Forest.replace_inv h a b
+
+theorem C04_replaceStatement_holds : C04_replaceStatement := fun f a b h => C04_replace f a b h
 
 /-- `element_wrap`: full statement (the gap case by evaluating its steps on the explicit forest). -/
 theorem C04_elementWrap (f : Forest) (node name : Nat) (h : f.Inv) : (f.elementWrap node name).1.Inv :=
@@ -309,13 +335,24 @@ theorem C04_cloneNode_partial (f : Forest) (node : Nat) (h : f.Inv) (hne : f.isE
 
 /-- `clone_node` of an element, under the decidable guard `Forest.cloneTopOK`: after the replay
     the temporary top element is still parentless and has at most one child, which is what the
-    final indextree `remove` of the top needs.  That the guard always holds is not proved. -/
+    final indextree `remove` of the top needs. -/
 theorem C04_cloneNode_guarded (f : Forest) (node : Nat) (h : f.Inv) (hok : f.cloneTopOK node = true) :
     (f.cloneNode node).1.Inv := Forest.cloneNode_inv_of_topOK h node hok
 
+/-- The guard always holds under the invariant (the argument of the C06 lemmas: during the replay
+    nothing but the clone's root is ever given the scratch element as parent, and the scratch
+    element keeps having no parent). -/
+theorem C04_cloneTopOK (f : Forest) (node : Nat) (h : f.Inv) : f.cloneTopOK node = true :=
+  Forest.cloneTopOK_of_inv h node
+
+/-- `clone_node`: full statement. -/
+theorem C04_cloneNode (f : Forest) (node : Nat) (h : f.Inv) : (f.cloneNode node).1.Inv :=
+  Forest.cloneNode_inv h node
+
+theorem C04_cloneNodeStatement_holds : C04_cloneNodeStatement := fun f n h => C04_cloneNode f n h
+
 /-- Non-vacuity: a strict forest with a gap (`<a>x<b/>y</a>`, `b` between two texts) and one
-    without; the unproved region is not empty and the model keeps the invariant there on these
-    instances (evaluation, not proof). -/
+    without; the gap case is not empty. -/
 def gapForest : Forest := { roots := [.node 0 (.element 1) [.node 1 (.text ['x']) [], .node 2 (.element 2) [], .node 3 (.text ['y']) []], .node 4 (.text ['z']) [], .node 5 (.element 3) []], next := 6 }
 example : gapForest.inv = true ∧ gapForest.textGap 2 = true ∧ gapForest.textGap 1 = false := by decide
 example : (gapForest.replace 2 4).1.inv = true := by decide
@@ -323,5 +360,53 @@ example : (gapForest.replace 2 5).1.inv = true := by decide
 example : (gapForest.replace 1 5).1.inv = true := by decide
 example : (gapForest.elementWrap 2 9).1.inv = true := by decide
 example : gapForest.cloneTopOK 0 = true := by decide
+
+/-! ### A handle keeps denoting the same value
+
+For creation, the four moves, `detach` and `remove`: a live node that is not text and does not lie
+in the subtree the call moves or removes has the same value afterwards (so it is still live).
+Text nodes are excluded on purpose: text consolidation rewrites the content of the text node next
+to the old or the new site, so for a text node only "still a text node, or merged away" holds.
+The setters change exactly the value of their target (`C04_setValue`); the remaining composite
+calls are not covered by a stability theorem. -/
+
+theorem C04_value_stable_newNode (f : Forest) (w : Value) (h : Nat) (v : Value)
+    (hv : f.value? h = some v) : (f.newNode w).1.value? h = some v :=
+  Forest.value_stable_newNode f w hv
+
+theorem C04_value_stable_append (f : Forest) (p c h : Nat) (v : Value) (hi : f.Inv)
+    (hv : f.value? h = some v) (hnt : v.isText = false) (hc : c ∉ f.ancestors h) :
+    (f.append p c).1.value? h = some v :=
+  Forest.value_stable_of_outcome (Forest.append_outcome hi.toW p c) hv hnt hc
+
+theorem C04_value_stable_prepend (f : Forest) (p c h : Nat) (v : Value) (hi : f.Inv)
+    (hv : f.value? h = some v) (hnt : v.isText = false) (hc : c ∉ f.ancestors h) :
+    (f.prepend p c).1.value? h = some v :=
+  Forest.value_stable_of_outcome (Forest.prepend_outcome hi.toW p c) hv hnt hc
+
+theorem C04_value_stable_insertAfter (f : Forest) (r n h : Nat) (v : Value) (hi : f.Inv)
+    (hv : f.value? h = some v) (hnt : v.isText = false) (hc : n ∉ f.ancestors h) :
+    (f.insertAfter r n).1.value? h = some v :=
+  Forest.value_stable_of_outcome (Forest.insertAfter_outcome hi.toW r n) hv hnt hc
+
+theorem C04_value_stable_insertBefore (f : Forest) (r n h : Nat) (v : Value) (hi : f.Inv)
+    (hv : f.value? h = some v) (hnt : v.isText = false) (hc : n ∉ f.ancestors h) :
+    (f.insertBefore r n).1.value? h = some v :=
+  Forest.value_stable_of_outcome (Forest.insertBefore_outcome hi.toW r n) hv hnt hc
+
+theorem C04_value_stable_remove (f : Forest) (n h : Nat) (v : Value) (hi : f.Inv)
+    (hv : f.value? h = some v) (hnt : v.isText = false)
+    (hsub : ∀ t, f.get? n = some t → h ∉ HTree.handles t) : (f.remove n).1.value? h = some v :=
+  Forest.value_stable_remove hi n hv hnt hsub
+
+theorem C04_value_stable_detach (f : Forest) (n h : Nat) (v : Value) (hi : f.Inv)
+    (hv : f.value? h = some v) (hnt : v.isText = false)
+    (hsub : ∀ t, f.get? n = some t → h ∉ HTree.handles t) : (f.detach n).1.value? h = some v :=
+  Forest.value_stable_detach hi n hv hnt hsub
+
+/-- Non-vacuity, and the reason text is excluded: removing `b` from `<a>x<b/>y</a>` keeps the value
+    of `a` and rewrites the text `x`. -/
+example : (gapForest.remove 2).1.value? 0 = some (.element 1) ∧
+    (gapForest.remove 2).1.value? 1 = some (.text ['x', 'y']) := by decide
 
 end XotModel.Props
